@@ -10,7 +10,11 @@ import (
 	"sync"
 	"time"
 
+	"github.com/internetarchive/Zeno/internal/pkg/config"
+	"github.com/internetarchive/Zeno/internal/pkg/postprocessor"
+	"github.com/internetarchive/Zeno/internal/pkg/preprocessor"
 	"github.com/internetarchive/Zeno/internal/pkg/stats"
+	"github.com/internetarchive/Zeno/pkg/models"
 )
 
 func statsCall(c string) {
@@ -56,6 +60,32 @@ func init() {
 	register("stats", func() handler {
 		baseInit()
 		return func(in map[string]any) string {
+			if str(in, "op") == "startstop" {
+				// a stage is started and stopped at once (a stop request right after start-up: some worker goroutines have not run yet);
+				// its routine gauge must be back to 0 when Stop() has returned. One start per stage and process.
+				config.Get().WorkersCount = num(in, "workers", 64)
+				inCh, outCh := make(chan *models.Item), make(chan *models.Item)
+				var get func() uint64
+				switch str(in, "stage") {
+				case "pre":
+					if err := preprocessor.Start(inCh, outCh); err != nil {
+						return "harness-error " + err.Error()
+					}
+					time.Sleep(time.Duration(num(in, "afterUs", 0)) * time.Microsecond)
+					preprocessor.Stop()
+					get = stats.PreprocessorRoutinesGet
+				case "post":
+					if err := postprocessor.Start(inCh, outCh); err != nil {
+						return "harness-error " + err.Error()
+					}
+					time.Sleep(time.Duration(num(in, "afterUs", 0)) * time.Microsecond)
+					postprocessor.Stop()
+					get = stats.PostprocessorRoutinesGet
+				default:
+					return "harness-error bad-stage"
+				}
+				return fmt.Sprintf("gauge=%d", get())
+			}
 			// baselines (totals are monotone and cannot be reset)
 			u0, s0 := stats.VerifTotals()
 			h0 := stats.VerifHTTPTotals()
